@@ -63,6 +63,9 @@ def programs(tier, rnd):
     ps.append(dict(name='soc-basic', kind='soc', k=0))
     ps.append(dict(name='soc-two-cones', kind='soc', k=1))
     ps.append(dict(name='soc-infeasible', kind='soc', k=2))
+    # market-split members: branch and bound needs thousands of nodes (iteration limits of an interface become visible)
+    for i in range(2 if tier == 'quick' else 8):
+        ps.append(dict(name='msplit%d' % i, kind='msplit', n=18, k=3, seed=100 + i))
     n = 14 if tier == 'quick' else 200
     for i in range(n):
         kind = rnd.choice(['lp', 'milp', 'milp'])
@@ -96,6 +99,16 @@ def build(p):
         else:
             m.st(rso.norm(x, 2) <= 1, x[0] >= 2)
             m.min(x.sum())
+        return m
+    if p['kind'] == 'msplit':
+        import random
+        r = random.Random(p['seed'])
+        A = np.array([[float(r.randint(10, 99)) for _ in range(p['n'])] for _ in range(p['k'])])
+        b = np.floor(A.sum(axis=1) / 2)
+        x = m.dvar(p['n'], 'B')
+        s_ = m.dvar(p['k'])
+        m.st(A @ x - b <= s_, b - A @ x <= s_)
+        m.min(s_.sum())
         return m
     n = p['n']
     vt = p['vt']
